@@ -103,12 +103,11 @@ func RunLedger(property string, tier Tier, profiles []*explore.Profile, require 
 	for _, ps := range passes {
 		p := ps.p
 		useLongIDs(ps.long)
-		// continuation: after the exhaustive levels the search goes on from the states of the last
-		// level with the smallest hashes (more starting points, longer histories)
+		// deterministic beam beyond the exhaustive bound (longer histories; a supplement only)
 		if p.ContinueRoots == 0 && p.Depth >= 2 && p.Depth < 100 {
-			p.ContinueRoots, p.ContinueDepth = 512, 2
+			p.ContinueRoots, p.ContinueDepth = 128, 4
 			if tier.Thorough() {
-				p.ContinueRoots, p.ContinueDepth = 4096, 3
+				p.ContinueRoots, p.ContinueDepth = 1024, 6
 			}
 		}
 		r, err := explore.Run(p)
@@ -131,8 +130,8 @@ func RunLedger(property string, tier Tier, profiles []*explore.Profile, require 
 			"profile": p.Name, "states": r.States, "transitions": r.Transitions, "legs": r.Legs,
 			"depth_bound": p.Depth, "depth_completed": r.DepthCompleted, "exhaustive_within_bound": r.Exhaustive,
 			"cap_hit": r.CapHit, "new_states_per_depth": compressDepths(r.PerDepthStates), "wall_s": r.Wall.Seconds(),
-			"continuation": map[string]interface{}{"roots": r.ContinueRoots, "further_levels_completed": r.ContinueDepthCompleted, "states": r.ContinueStates,
-				"note": "bounded exhaustive search from further starting points: the states of the last exhaustive level with the smallest hashes; not part of the exhaustive-within-bound claim"},
+			"continuation": map[string]interface{}{"beam_width": r.ContinueRoots, "further_levels_completed": r.ContinueDepthCompleted, "states": r.ContinueStates,
+				"note": "deterministic beam beyond the exhaustive bound: per level the states with the smallest hashes are expanded with the whole menu; a supplement, not part of the exhaustive-within-bound claim"},
 		})
 		for _, s := range r.Samples {
 			samples = append(samples, map[string]interface{}{"profile": p.Name, "history": s})
